@@ -221,18 +221,65 @@ package utils
 //@ ghost var walDirty bool
 //@ ghost var walWrites int
 
+// wLen[k], wB0[k], wHead[k]: length, first byte and first 8 bytes (as int64) of the k-th Write call.
+//@ ghost var wLen intmap
+//@ ghost var wB0 intmap
+//@ ghost var wHead intmap
+
 //@ func (*os.File).Write
-//@ trusted "ghost file model: a write makes the file dirty until the next successful Sync"
-//@ modifies ghost:walDirty ghost:walWrites
+//@ trusted "ghost file model: a write makes the file dirty until the next successful Sync; the shape of each write (length, first byte, first 8 bytes) is recorded in ghost arrays"
+//@ modifies ghost:walDirty ghost:walWrites ghost:wLen ghost:wB0 ghost:wHead
 //@ ensures #dirty: walDirty && walWrites == old(walWrites) + 1
 //@ ensures #n: err == nil ==> n == len(b)
+//@ ensures #len: wLen[old(walWrites)] == len(b) && forallint(k, pattern(wLen[k]), k != old(walWrites) ==> wLen[k] == old(wLen[k]))
+//@ ensures #b0: (len(b) >= 1 ==> wB0[old(walWrites)] == b[0]) && forallint(k, pattern(wB0[k]), k != old(walWrites) ==> wB0[k] == old(wB0[k]))
+//@ ensures #head: (len(b) >= 8 ==> wHead[old(walWrites)] == sle64(b, 0)) && forallint(k, pattern(wHead[k]), k != old(walWrites) ==> wHead[k] == old(wHead[k]))
 
 //@ func (*os.File).Sync
 //@ trusted "ghost file model: a successful fsync makes everything written so far durable"
 //@ modifies ghost:walDirty
-//@ ensures #clean: err == nil ==> !walDirty
-//@ ensures #failed: err != nil ==> walDirty == old(walDirty)
+//@ ensures #clean: result == nil ==> !walDirty
+//@ ensures #failed: result != nil ==> walDirty == old(walDirty)
 
 // ---- pure parsing / formatting helpers of the repository (no writes to caller-visible memory) ----
 //@ effectfree strings\..* regexp\..* \(\*regexp\.Regexp\)\..* @/utils\.TimeframeFromString @/utils\.CandleDurationFromString @/utils/io\.EnumRecordTypeByName @/utils/io\.EnumElementTypeFromName @/utils/io\.TypeStrToElemType \(\*@/utils/io\.TimeBucketKey\)\.(GetTimeFrame|GetItemInCategory|GetMultiItemInCategory|GetCatKey|GetItemKey|String) @/utils/io\.NewTimeBucketKey @/utils/io\.NewTimeBucketKeyFromString
 //@ effectfree \(\*@/utils/io\.ColumnSeries\)\.(GetDataShapes|GetTime|GetEpoch|Len|GetColumn|GetColumnNames) @/utils/io\.GetElementType time\.Since
+
+// ---- ghost state of the WAL protocol (abstract record log; see executor contracts) ----
+// primaryDirty: a primary data file was written since the last syncfs.
+//@ ghost var primaryDirty bool
+// infoN, infoTid/infoDest/infoStatus: the transaction-info records written so far, in order.
+//@ ghost var infoN int
+//@ ghost var infoTid intmap
+//@ ghost var infoDest intmap
+//@ ghost var infoStatus intmap
+// clock / flushAt / ckptAt / doneAt: logical times of the last FlushToWAL, CreateCheckpoint and WaitGroup.Done
+//@ ghost var clock int
+//@ ghost var flushAt int
+//@ ghost var ckptAt int
+//@ ghost var doneAt int
+
+//@ func @/utils/io.Syncfs
+//@ trusted "syscall.Sync: everything written to primary files so far is durable"
+//@ modifies ghost:primaryDirty
+//@ ensures !primaryDirty
+
+//@ func (hash.Hash).Write
+//@ trusted "md5 state update (not modelled)"
+//@ pure
+
+//@ func (hash.Hash).Sum
+//@ trusted "crypto/md5: appends the 16-byte digest"
+//@ modifies none
+//@ ensures len(result) == len(arg0) + 16
+
+//@ func crypto/md5.New
+//@ trusted "crypto/md5"
+//@ pure
+
+//@ func (*sync.WaitGroup).Done
+//@ trusted "stdlib; recorded on the logical clock for the shutdown-order obligation"
+//@ modifies ghost:clock ghost:doneAt
+//@ ensures clock == old(clock) + 1 && doneAt == clock
+
+//@ globalfact #counters: walWrites >= 0 && infoN >= 0 && clock >= 0
